@@ -485,7 +485,14 @@ impl P2p {
 
         let height = from.height() + 1;
 
-        let range = height..=height + amount - 1;
+        // A request for no headers, or for a range that does not fit in `u64`, can never be
+        // served: the session would keep re-sending an invalid request forever.
+        let last_height = amount
+            .checked_sub(1)
+            .and_then(|offset| height.checked_add(offset))
+            .ok_or(HeaderExError::InvalidRequest)?;
+
+        let range = height..=last_height;
 
         let mut session = HeaderSession::new(range, self.cmd_tx.clone());
         let headers = session.run().await?;
